@@ -434,7 +434,11 @@ fn run_all(rep: &mut Report, tier: Tier) {
     for (c, e) in fails {
         rep.fail(&format!("{} :: script {}", e, c.label), json!({"engine": "E2-script", "case": c}));
     }
-    rep.set("scripted_histories", json!(n));
+    // a sender that dies mid-message while the member is in the set: reported as closed exactly when
+    // no sender survives (the crash machinery of C12 with the receiver set as observer)
+    let ncrash = super::c12::run_for(rep, &[super::c12::Watch::Select], "sender crash seen through the receiver set");
+    n += ncrash;
+    rep.set("scripted_histories", json!(n - ncrash));
     rep.sample(json!({"scripted_history": ss[ss.len() / 2].label, "acts": ss[ss.len() / 2].acts}));
     rep.set("evaluations", json!(tot.execs + n));
     rep.set("distinct_nontrivial", json!(tot.with_switch + distinct.len() as u64));
@@ -445,6 +449,9 @@ fn run_all(rep: &mut Report, tier: Tier) {
 
 pub fn replay(tier: Tier, v: &Value) -> i32 {
     let v = if v.get("variant").is_some() { &v["case"] } else { v };
+    if v["engine"] == "crash-case" {
+        return super::c12::replay(&v["case"]);
+    }
     if v["engine"] == "E2-script" {
         let Ok(c) = serde_json::from_value::<Script>(v["case"].clone()) else { return 2 };
         let cfg = Cfg { sched: true, fake_sndbuf: Some(4608), ..Default::default() };
